@@ -85,7 +85,7 @@ def has_shell(context):
                 val = key.value
                 if isinstance(val, ast.Num):
                     result = bool(val.n)
-                elif isinstance(val, ast.List):
+                elif isinstance(val, (ast.List, ast.Tuple, ast.Set)):
                     result = bool(val.elts)
                 elif isinstance(val, ast.Dict):
                     result = bool(val.keys)
